@@ -222,6 +222,7 @@ impl<'a> Planner<'a> {
                     }
                 }
                 let sort_keys = self.convert_order_by(select.order_by);
+                let sort_keys = self.resolve_order_by_ordinals(sort_keys, select.columns, exprs, aliases)?;
                 let sort = self.arena.alloc(LogicalOperator::Sort(LogicalSort {
                     input: current,
                     order_by: sort_keys,
@@ -688,6 +689,44 @@ impl<'a> Planner<'a> {
         }
 
         keys.into_bump_slice()
+    }
+
+    /// `ORDER BY <n>` names the n-th select-list item (1-based). Not resolvable here when the list contains `*`.
+    pub(crate) fn resolve_order_by_ordinals(
+        &self,
+        keys: &'a [SortKey<'a>],
+        columns: &'a [SelectColumn<'a>],
+        exprs: &'a [&'a Expr<'a>],
+        aliases: &'a [Option<&'a str>],
+    ) -> Result<&'a [SortKey<'a>]> {
+        if exprs.len() != columns.len() {
+            return Ok(keys);
+        }
+        let mut out = bumpalo::collections::Vec::new_in(self.arena);
+        for key in keys {
+            let mut expr = key.expr;
+            if let Expr::Literal(crate::sql::ast::Literal::Integer(n)) = key.expr {
+                match n.parse::<usize>() {
+                    Ok(pos) if pos >= 1 && pos <= exprs.len() => {
+                        expr = match aliases[pos - 1] {
+                            Some(alias) => self.arena.alloc(Expr::Column(crate::sql::ast::ColumnRef {
+                                schema: None,
+                                table: None,
+                                column: alias,
+                            })),
+                            None => exprs[pos - 1],
+                        };
+                    }
+                    _ => bail!("ORDER BY position {} is not in select list", n),
+                }
+            }
+            out.push(SortKey {
+                expr,
+                ascending: key.ascending,
+                nulls_first: key.nulls_first,
+            });
+        }
+        Ok(out.into_bump_slice())
     }
 
     pub(crate) fn eval_const_u64(&self, expr: &Expr<'a>) -> Option<u64> {
